@@ -24,7 +24,7 @@ def run_step(M, prog, case):
     """execute one path; returns StepCtx (raises Panic etc. after recording what is needed in M.env['ctx'])"""
     M.env['select_start'] = 0
     spec = Spec(**case.get('spec', {}))
-    w = World(M, prog, spec)
+    w = World(M, prog, spec, partial=case.get('partial'))
     setup = case.get('setup')
     if setup: SETUPS[setup](M, w, case)
     conn_kw = case.get('conn', {})
@@ -61,7 +61,7 @@ def judge(name):
     return deco
 
 def world_model(w, md):
-    out = {}
+    out = dict(w.partial)
     for k, v in w.v.items():
         val = md.eval(v, True)
         out[k] = z3.is_true(val) if z3.is_bool(val) else val.as_long()
@@ -83,6 +83,16 @@ def step_case(prog, case, budget):
         obs = []
         for j in judges:
             obs.extend(j(ctx) or [])
+        # one solver query for the conjunction; split only when it fails
+        sym_terms = [t for _, _, t in obs if not isinstance(t, bool)]
+        all_ok = all(t for _, _, t in obs if isinstance(t, bool))
+        if all_ok and sym_terms:
+            okk_all, _ = check_valid(M, z3.And(sym_terms) if len(sym_terms) > 1 else sym_terms[0], None)
+        else:
+            okk_all = all_ok
+        if okk_all:
+            st.obligations += len(obs); st.discharged += len(obs)
+            obs = []
         for oid, desc, term in obs:
             okk, md = check_valid(M, term, st)
             if not okk:
